@@ -16,10 +16,20 @@
   The per-step theorems hold in every state satisfying the invariant `Inv`, which
   `C08_serial_inv_reachable` / `C08_mux_inv_reachable` show for every state reachable by *any*
   operation list.  `connFailure s op` says that `op` meets a connection failure in state `s`.
+
+  The component `muxt` is the ThriftMux transport *together with the callers blocked on its open
+  result* (`MuxT.PSt`, operations `MuxT.POp`, component `MuxT.pcomp`): `tr op` is an operation `op`
+  of the transport itself (`MuxT.Op`, step `MuxT.stepOut`) followed by the end of its drain, at
+  which the blocked callers go on if the open result was set; `openStart` / `connected` are an
+  `Open()` whose connect takes time; `park` is a request handed to the transport while the open is
+  pending.  The theorems about single operations of the transport are stated on `MuxT.stepOut`;
+  `C08_mux_parked_resume` says what the end of the drain adds; the theorems over whole histories
+  quantify over all operation lists of the combined component.
 -/
 import ScalesModel.Proofs.SerialTheorems
 import ScalesModel.Proofs.MuxTTheorems
 import ScalesModel.Proofs.MuxTRaceTheorems
+import ScalesModel.Proofs.MuxTParkedTheorems
 namespace Scales.C08
 open Scales.Transport
 
@@ -94,8 +104,9 @@ theorem C08_serial_model_satisfies_spec (ops : List Serial.Op) (h : Serial.comp.
 /-- the invariant (a closed transport has no live loop and no ping helper; only an Open
     transport has requests in its tag map; between two operations no `_ProcessReply` greenlet
     is pending) holds in every reachable state -/
-theorem C08_mux_inv_reachable (ops : List MuxT.Op) : MuxT.Inv (MuxT.runOps MuxT.St.init ops) :=
-  MuxT.inv_reachable ops
+theorem C08_mux_inv_reachable (ops : List MuxT.POp) :
+    MuxT.Inv (MuxT.runOpsP MuxT.PSt.init ops).t :=
+  MuxT.inv_reachableP ops
 
 /-- on a connection failure (refused connect, write error, read error or end-of-stream in a
     header or a body — alone or right behind frames read in the same burst —, ping silence)
@@ -108,10 +119,11 @@ theorem C08_mux_shutdown_fails_all_once (s : MuxT.St) (op : MuxT.Op) (hinv : Mux
     (MuxT.stepOut s op).1.tagMap = [] ∧ (MuxT.stepOut s op).1.sendQ = [] :=
   MuxT.shutdown_fails_all_once s op hinv hf
 
-/-- over a whole history no request is ever handed more than one response -/
-theorem C08_mux_responses_at_most_once (ops : List MuxT.Op) (h : MuxT.comp.wf () ops = true)
-    (id : Nat) : MuxT.responsesTo id (MuxT.comp.modelTrace () ops) ≤ 1 :=
-  MuxT.responses_at_most_once ops h id
+/-- over a whole history no request — issued to an open transport, rejected on the spot, or handed
+    to the transport while its open was pending — is ever handed more than one response -/
+theorem C08_mux_responses_at_most_once (ops : List MuxT.POp) (h : MuxT.pcomp.wf () ops = true)
+    (id : Nat) : MuxT.responsesToP id (MuxT.pcomp.modelTrace () ops) ≤ 1 :=
+  MuxT.responses_at_most_onceP ops h id
 
 /-- a `_ProcessReply` greenlet that was spawned before `_Shutdown` and runs after it (its frame
     had been read, the next read failed before the receive loop yielded) finds an empty tag map
@@ -134,19 +146,114 @@ theorem C08_mux_burst_fault_once (s : MuxT.St) (rs : List (IOOut × MuxT.Frame))
     (MuxT.stepOut s (.burst rs)).1.pending = [] :=
   MuxT.burst_fault_once s rs hinv hrl hex
 
-/-- **each in-flight request is completed exactly once, over whole histories.**  Whatever
-    happened before and whatever happens afterwards (replies for its tag arriving late
-    included): a request that is in the tag map when the connection fails is handed a
-    `ClientError` in that very operation, and that is the only response it is handed in the
-    whole history.  (With `C08_mux_responses_at_most_once`: a request is completed by its reply
-    or by one error, never both.) -/
-theorem C08_mux_inflight_failed_exactly_once (pre : List MuxT.Op) (op : MuxT.Op) (post : List MuxT.Op)
-    (h : MuxT.comp.wf () (pre ++ op :: post) = true)
-    (hf : MuxT.connFailure (MuxT.runOps MuxT.St.init pre) op = true) (tag id : Nat)
-    (hin : (tag, id) ∈ (MuxT.runOps MuxT.St.init pre).tagMap) :
-    (id, Resp.cerr) ∈ (MuxT.stepOut (MuxT.runOps MuxT.St.init pre) op).2.eff.dels ∧
-    MuxT.responsesTo id (MuxT.comp.modelTrace () (pre ++ op :: post)) = 1 :=
-  MuxT.inflight_failed_exactly_once pre op post h hf tag id hin
+/-- **every accepted request is failed exactly once when the connection fails, over whole
+    histories.**  Whatever happened before and whatever happens afterwards (replies for its tag
+    arriving late included): a request the transport has accepted and not answered — it is in the
+    tag map, or its caller is blocked on the open result (`PSt.inflight`) — when the connection
+    fails (`connFailureP`: a refused connect, also one that was in progress; a connection reset
+    or ended at once; a write error, a read error or an end-of-stream, alone, in a burst or in a
+    race; ping silence) is handed an error in that very operation, and that is the only response
+    it is handed in the whole history.  (With `C08_mux_responses_at_most_once`: a request is
+    completed by its reply or by one error, never both.) -/
+theorem C08_mux_inflight_failed_exactly_once (pre : List MuxT.POp) (op : MuxT.POp) (post : List MuxT.POp)
+    (h : MuxT.pcomp.wf () (pre ++ op :: post) = true)
+    (hf : MuxT.connFailureP (MuxT.runOpsP MuxT.PSt.init pre) op = true) (id : Nat)
+    (hin : id ∈ (MuxT.runOpsP MuxT.PSt.init pre).inflight) :
+    (∃ r, r.isError = true ∧
+        (id, r) ∈ (MuxT.stepOutP (MuxT.runOpsP MuxT.PSt.init pre) op).2.eff.dels) ∧
+    MuxT.responsesToP id (MuxT.pcomp.modelTrace () (pre ++ op :: post)) = 1 :=
+  MuxT.inflight_failed_exactly_onceP pre op post h hf id hin
+
+/-- **on a connection failure the requests in the tag map and the callers blocked on the open
+    result are failed, each exactly once, and nothing else happens**: the operation hands out
+    `ClientError` to the requests in the tag map, in tag-map order, then the 'Sink not open.' error
+    to the blocked callers, in the order in which they arrived, and nothing else; the fault signal
+    is raised once; the transport reports `closed`; tag map and send queue are empty — no blocked
+    caller was entered or queued —; nobody is blocked any more; a pending open has failed. -/
+theorem C08_mux_failure_fails_inflight_and_parked (ps : MuxT.PSt) (op : MuxT.POp) (hinv : MuxT.InvP ps)
+    (hf : MuxT.connFailureP ps op = true) :
+    (MuxT.stepOutP ps op).2.eff.dels =
+      ps.t.tagMap.map (fun p => (p.2, Resp.cerr)) ++ ps.parked.map (fun p => (p.1, Resp.other)) ∧
+    (MuxT.stepOutP ps op).2.eff.faults = 1 ∧
+    (MuxT.stepOutP ps op).1.t.cstate = .closed ∧ (MuxT.stepOutP ps op).1.t.tagMap = [] ∧
+    (MuxT.stepOutP ps op).1.t.sendQ = [] ∧ (MuxT.stepOutP ps op).1.parked = [] ∧
+    (MuxT.stepOutP ps op).1.t.openRes ≠ .pending :=
+  MuxT.failure_fails_allP ps op hinv hf
+
+/-- the invariant of the combined state (the transport's own invariants; while a connect is in
+    progress the transport is as `Open()` left it, or as a `Close()` left that; callers are
+    blocked only while the open is pending) holds in every reachable state -/
+theorem C08_mux_invP_reachable (ops : List MuxT.POp) : MuxT.InvP (MuxT.runOpsP MuxT.PSt.init ops) :=
+  MuxT.invP_reachable ops
+
+/-- callers are blocked on the open result only while the open is pending: then the transport
+    reports `idle` and nothing is in its tag map — in every reachable state -/
+theorem C08_mux_parked_only_while_pending (ops : List MuxT.POp)
+    (h : (MuxT.runOpsP MuxT.PSt.init ops).parked ≠ []) :
+    (MuxT.runOpsP MuxT.PSt.init ops).waiting = true ∧
+    (MuxT.runOpsP MuxT.PSt.init ops).t.cstate = .idle ∧
+    (MuxT.runOpsP MuxT.PSt.init ops).t.tagMap = [] :=
+  MuxT.parked_only_while_pending ops h
+
+/-- **what becomes of the blocked callers at the end of a drain.**  An operation `op` of the
+    transport takes it to `(stepOut ps.t op).1`; then:
+    * the open is still pending — everybody stays blocked, nothing is added to what `op` does;
+    * the transport is Open — the callers go on in the order in which they arrived: each is
+      entered in the tag map under the tag the pool hands it, its frame is queued behind what was
+      queued, in that order; none of them is answered; nobody is blocked any more;
+    * otherwise (the open failed, or `Close()`) — each of them is handed the 'Sink not open.'
+      error once, in that order, after the responses of `op` itself; the transport is exactly as
+      `op` left it — nothing of them is in the tag map or queued; nobody is blocked any more. -/
+theorem C08_mux_parked_resume (ps : MuxT.PSt) (op : MuxT.Op) :
+    ((MuxT.stepOutP ps (.tr op)).1.waiting = true →
+      (MuxT.stepOutP ps (.tr op)).1.parked = ps.parked ∧
+      (MuxT.stepOutP ps (.tr op)).1.t = (MuxT.stepOut ps.t op).1 ∧
+      (MuxT.stepOutP ps (.tr op)).2 = (MuxT.stepOut ps.t op).2) ∧
+    ((MuxT.stepOutP ps (.tr op)).1.waiting = false → (MuxT.stepOut ps.t op).1.cstate = .opened →
+      (MuxT.stepOutP ps (.tr op)).1.parked = [] ∧
+      (MuxT.stepOutP ps (.tr op)).1.t.tagMap =
+        (MuxT.stepOut ps.t op).1.tagMap ++ ps.parked.map (fun p => (p.2, p.1)) ∧
+      MuxT.qItems (MuxT.stepOutP ps (.tr op)).1.t =
+        MuxT.qItems (MuxT.stepOut ps.t op).1 ++ ps.parked.map (fun p => MuxT.Item.req p.2 p.1) ∧
+      (MuxT.stepOutP ps (.tr op)).1.t.cstate = .opened ∧
+      (MuxT.stepOutP ps (.tr op)).2.eff.dels = (MuxT.stepOut ps.t op).2.eff.dels) ∧
+    ((MuxT.stepOutP ps (.tr op)).1.waiting = false → (MuxT.stepOut ps.t op).1.cstate ≠ .opened →
+      (MuxT.stepOutP ps (.tr op)).1.parked = [] ∧
+      (MuxT.stepOutP ps (.tr op)).1.t = (MuxT.stepOut ps.t op).1 ∧
+      (MuxT.stepOutP ps (.tr op)).2.eff.dels =
+        (MuxT.stepOut ps.t op).2.eff.dels ++ ps.parked.map (fun p => (p.1, Resp.other))) :=
+  MuxT.parked_resume ps op
+
+/-- **a request handed to the transport while its open was pending, whose open does not succeed, is
+    answered exactly once and nothing of it stays behind — over whole histories.**  Whatever
+    happened before and whatever happens afterwards: if a caller is blocked on the open result and
+    an operation of the transport — a write or read fault or an end-of-stream of the handshake,
+    ping silence, a burst, a race at any position, a `Close()` — ends with the open no longer
+    pending and the transport not Open, that caller is handed the 'Sink not open.' error in that
+    very operation; it is the only response it is handed in the whole history; nobody is blocked
+    afterwards; and the transport is exactly as the operation left it (closed, with an empty tag
+    map and send queue: `C08_mux_closed_and_signalled`, `C08_mux_race_closed_and_signalled`) — the
+    request was neither given a tag-map entry nor queued.  (The refused or reset connect that was
+    in progress: `C08_mux_inflight_failed_exactly_once`, `C08_mux_failure_fails_inflight_and_parked`.) -/
+theorem C08_mux_parked_failed_exactly_once (pre : List MuxT.POp) (op : MuxT.Op) (post : List MuxT.POp)
+    (h : MuxT.pcomp.wf () (pre ++ .tr op :: post) = true) (id tag : Nat)
+    (hin : (id, tag) ∈ (MuxT.runOpsP MuxT.PSt.init pre).parked)
+    (hw : (MuxT.stepOutP (MuxT.runOpsP MuxT.PSt.init pre) (.tr op)).1.waiting = false)
+    (hno : (MuxT.stepOut (MuxT.runOpsP MuxT.PSt.init pre).t op).1.cstate ≠ .opened) :
+    (id, Resp.other) ∈ (MuxT.stepOutP (MuxT.runOpsP MuxT.PSt.init pre) (.tr op)).2.eff.dels ∧
+    MuxT.responsesToP id (MuxT.pcomp.modelTrace () (pre ++ .tr op :: post)) = 1 ∧
+    (MuxT.stepOutP (MuxT.runOpsP MuxT.PSt.init pre) (.tr op)).1.parked = [] ∧
+    (MuxT.stepOutP (MuxT.runOpsP MuxT.PSt.init pre) (.tr op)).1.t =
+      (MuxT.stepOut (MuxT.runOpsP MuxT.PSt.init pre).t op).1 :=
+  MuxT.parked_failed_exactly_once pre op post h id tag hin hw hno
+
+/-- without blocked callers the combined component is the transport: `tr op` does to the
+    transport what `op` does, hands out what `op` hands out, and nobody gets blocked -/
+theorem C08_mux_transport_alone (ps : MuxT.PSt) (op : MuxT.Op) (h : ps.parked = []) :
+    (MuxT.stepOutP ps (.tr op)).1.t = (MuxT.stepOut ps.t op).1 ∧
+    (MuxT.stepOutP ps (.tr op)).2 = (MuxT.stepOut ps.t op).2 ∧
+    (MuxT.stepOutP ps (.tr op)).1.parked = [] :=
+  MuxT.tr_without_parked ps op h
 
 /-- after a connection failure the transport reports `closed`, the fault signal was raised
     exactly once, both loops, the ping loop and the ping helper are gone, and an open that was
@@ -196,11 +303,12 @@ theorem C08_mux_open_carries (s : MuxT.St) (id tag : Nat) (hop : s.cstate = .ope
 
 /-- while `_OpenImpl` waits for the handshake's Rping the open result is pending, the transport
     reports `idle` and the ping is outstanding — in every reachable state -/
-theorem C08_mux_opening_means_pending (ops : List MuxT.Op)
-    (hop : (MuxT.runOps MuxT.St.init ops).opening = true) :
-    (MuxT.runOps MuxT.St.init ops).openRes = .pending ∧ (MuxT.runOps MuxT.St.init ops).cstate = .idle ∧
-    (MuxT.runOps MuxT.St.init ops).pingWait = true :=
-  MuxT.invO_reachable ops hop
+theorem C08_mux_opening_means_pending (ops : List MuxT.POp)
+    (hop : (MuxT.runOpsP MuxT.PSt.init ops).t.opening = true) :
+    (MuxT.runOpsP MuxT.PSt.init ops).t.openRes = .pending ∧
+    (MuxT.runOpsP MuxT.PSt.init ops).t.cstate = .idle ∧
+    (MuxT.runOpsP MuxT.PSt.init ops).t.pingWait = true :=
+  MuxT.opening_means_pendingP ops hop
 
 /-- **after a race the transport is closed.**  The receive loop reads `rs` (any frames, any
     outcomes) without yielding, and in the same drain a failing next read of the receive loop, a
@@ -227,43 +335,46 @@ theorem C08_mux_race_closed_and_signalled (s : MuxT.St) (rs : List (IOOut × Mux
     (MuxT.stepOut s (.race rs pos x)).1.openRes = (if s.openRes = .pending then .failed else s.openRes) :=
   MuxT.race_closed_and_signalled s rs pos x hinv hrl hok
 
-/-- **F16 at the level of the transport.**  In every reachable state in which `_OpenImpl` waits
-    for the handshake's Rping: whatever the receive loop reads in a drain (the Rping among the
-    frames or not) and wherever in that drain a failing read, a failing write or a `Close()`
-    lands — in particular after the Rping was dispatched and before `_OpenImpl` resumes —, the
-    transport ends up `closed`, `Open()` has failed, the fault signal was raised once (not for a
-    lone `Close()`), nothing was handed to anybody, and the next request is rejected on the spot
-    and changes nothing.  The transport never reports `open`. -/
-theorem C08_mux_race_during_handshake_fails_open (ops : List MuxT.Op) (rs : List (IOOut × MuxT.Frame))
-    (pos : MuxT.Pos) (x : MuxT.Hit) (hop : (MuxT.runOps MuxT.St.init ops).opening = true)
-    (hrl : (MuxT.runOps MuxT.St.init ops).rl ≠ .dead)
-    (hok : MuxT.hitOk (MuxT.runOps MuxT.St.init ops) rs pos x = true) :
-    (MuxT.stepOut (MuxT.runOps MuxT.St.init ops) (.race rs pos x)).1.cstate = .closed ∧
-    (MuxT.stepOut (MuxT.runOps MuxT.St.init ops) (.race rs pos x)).1.openRes = .failed ∧
-    (MuxT.stepOut (MuxT.runOps MuxT.St.init ops) (.race rs pos x)).2.eff.faults =
+/-- **F16 at the level of the transport, with callers blocked on the open result.**  In every
+    reachable state in which `_OpenImpl` waits for the handshake's Rping: whatever the receive loop
+    reads in a drain (the Rping among the frames or not) and wherever in that drain a failing read,
+    a failing write or a `Close()` lands — in particular after the Rping was dispatched and before
+    `_OpenImpl` resumes —, the transport ends up `closed`, `Open()` has failed, the fault signal was
+    raised once (not for a lone `Close()`), every caller blocked on the open result is handed the
+    'Sink not open.' error and nothing else is handed to anybody, nobody stays blocked, and the next
+    request is rejected on the spot and changes nothing.  The transport never reports `open`. -/
+theorem C08_mux_race_during_handshake_fails_open (ops : List MuxT.POp) (rs : List (IOOut × MuxT.Frame))
+    (pos : MuxT.Pos) (x : MuxT.Hit) (hop : (MuxT.runOpsP MuxT.PSt.init ops).t.opening = true)
+    (hrl : (MuxT.runOpsP MuxT.PSt.init ops).t.rl ≠ .dead)
+    (hok : MuxT.hitOk (MuxT.runOpsP MuxT.PSt.init ops).t rs pos x = true) :
+    (MuxT.stepOutP (MuxT.runOpsP MuxT.PSt.init ops) (.tr (.race rs pos x))).1.t.cstate = .closed ∧
+    (MuxT.stepOutP (MuxT.runOpsP MuxT.PSt.init ops) (.tr (.race rs pos x))).1.t.openRes = .failed ∧
+    (MuxT.stepOutP (MuxT.runOpsP MuxT.PSt.init ops) (.tr (.race rs pos x))).2.eff.faults =
       (if MuxT.raceFails rs pos x then 1 else 0) ∧
-    (MuxT.stepOut (MuxT.runOps MuxT.St.init ops) (.race rs pos x)).2.eff.dels = [] ∧
+    (MuxT.stepOutP (MuxT.runOpsP MuxT.PSt.init ops) (.tr (.race rs pos x))).2.eff.dels =
+      (MuxT.runOpsP MuxT.PSt.init ops).parked.map (fun p => (p.1, Resp.other)) ∧
+    (MuxT.stepOutP (MuxT.runOpsP MuxT.PSt.init ops) (.tr (.race rs pos x))).1.parked = [] ∧
     ∀ id tag,
-      ((MuxT.stepOut (MuxT.runOps MuxT.St.init ops) (.race rs pos x)).1.request id tag).1 =
-        (MuxT.stepOut (MuxT.runOps MuxT.St.init ops) (.race rs pos x)).1 ∧
-      ((MuxT.stepOut (MuxT.runOps MuxT.St.init ops) (.race rs pos x)).1.request id tag).2.eff.dels =
+      ((MuxT.stepOutP (MuxT.runOpsP MuxT.PSt.init ops) (.tr (.race rs pos x))).1.t.request id tag).1 =
+        (MuxT.stepOutP (MuxT.runOpsP MuxT.PSt.init ops) (.tr (.race rs pos x))).1.t ∧
+      ((MuxT.stepOutP (MuxT.runOpsP MuxT.PSt.init ops) (.tr (.race rs pos x))).1.t.request id tag).2.eff.dels =
         [(id, Resp.other)] := by
-  obtain ⟨h1, h2, h3, h4, h5⟩ := MuxT.race_during_handshake_fails_open ops rs pos x hop hrl hok
-  exact ⟨h1, h2, h3, h4, fun id tag => by rw [h5 id tag]; exact ⟨rfl, rfl⟩⟩
+  obtain ⟨h1, h2, h3, h4, h5, h6⟩ := MuxT.race_during_handshake_fails_openP ops rs pos x hop hrl hok
+  exact ⟨h1, h2, h3, h4, h5, fun id tag => by rw [h6 id tag]; exact ⟨rfl, rfl⟩⟩
 
 /-- **each in-flight request is completed exactly once by a race, over whole histories.**  Whatever
     happened before and whatever happens afterwards: a request that is in the tag map when a race
     begins is handed a response in that very operation — its reply, if that was among the frames
     and was dispatched before the event (position `mid`), otherwise a `ClientError` — and that is
     the only response it is handed in the whole history. -/
-theorem C08_mux_race_inflight_answered_exactly_once (pre : List MuxT.Op)
-    (rs : List (IOOut × MuxT.Frame)) (pos : MuxT.Pos) (x : MuxT.Hit) (post : List MuxT.Op)
-    (h : MuxT.comp.wf () (pre ++ .race rs pos x :: post) = true) (tag id : Nat)
-    (hin : (tag, id) ∈ (MuxT.runOps MuxT.St.init pre).tagMap) :
-    (∃ r, (id, r) ∈ (MuxT.stepOut (MuxT.runOps MuxT.St.init pre) (.race rs pos x)).2.eff.dels ∧
+theorem C08_mux_race_inflight_answered_exactly_once (pre : List MuxT.POp)
+    (rs : List (IOOut × MuxT.Frame)) (pos : MuxT.Pos) (x : MuxT.Hit) (post : List MuxT.POp)
+    (h : MuxT.pcomp.wf () (pre ++ .tr (.race rs pos x) :: post) = true) (tag id : Nat)
+    (hin : (tag, id) ∈ (MuxT.runOpsP MuxT.PSt.init pre).t.tagMap) :
+    (∃ r, (id, r) ∈ (MuxT.stepOutP (MuxT.runOpsP MuxT.PSt.init pre) (.tr (.race rs pos x))).2.eff.dels ∧
         (r = Resp.stream ∨ r = Resp.cerr)) ∧
-    MuxT.responsesTo id (MuxT.comp.modelTrace () (pre ++ .race rs pos x :: post)) = 1 :=
-  MuxT.race_inflight_answered_exactly_once pre rs pos x post h tag id hin
+    MuxT.responsesToP id (MuxT.pcomp.modelTrace () (pre ++ .tr (.race rs pos x) :: post)) = 1 :=
+  MuxT.race_inflight_answered_exactly_onceP pre rs pos x post h tag id hin
 
 /-- **outside the opening handshake the position `mid` is nothing new**: whenever `_OpenImpl` is not
     waiting for the handshake's Rping, a race at `mid` is the `burst` of its reads followed by its
@@ -281,13 +392,14 @@ theorem C08_mux_race_mid_sequential_outside_handshake (s : MuxT.St) (rs : List (
     the failing read, the failing write or the `Close()` runs before the `_ProcessReply` greenlet
     of the Rping or between it and the resumption of `_OpenImpl`, the operation ends in the same
     state with the same effects. -/
-theorem C08_mux_race_handshake_position_irrelevant (ops : List MuxT.Op)
+theorem C08_mux_race_handshake_position_irrelevant (ops : List MuxT.POp)
     (rs : List (IOOut × MuxT.Frame)) (x : MuxT.Hit)
-    (hop : (MuxT.runOps MuxT.St.init ops).opening = true)
-    (hrl : (MuxT.runOps MuxT.St.init ops).rl ≠ .dead)
-    (hok : MuxT.hitOk (MuxT.runOps MuxT.St.init ops) rs .mid x = true) :
-    (MuxT.runOps MuxT.St.init ops).race rs .mid x = (MuxT.runOps MuxT.St.init ops).race rs .pre x :=
-  MuxT.race_handshake_position_irrelevant _ rs x (MuxT.inv_reachable ops) (MuxT.invO_reachable ops) hop hrl hok
+    (hop : (MuxT.runOpsP MuxT.PSt.init ops).t.opening = true)
+    (hrl : (MuxT.runOpsP MuxT.PSt.init ops).t.rl ≠ .dead)
+    (hok : MuxT.hitOk (MuxT.runOpsP MuxT.PSt.init ops).t rs .mid x = true) :
+    MuxT.stepOutP (MuxT.runOpsP MuxT.PSt.init ops) (.tr (.race rs .mid x)) =
+      MuxT.stepOutP (MuxT.runOpsP MuxT.PSt.init ops) (.tr (.race rs .pre x)) :=
+  MuxT.race_handshake_position_irrelevantP ops rs x hop hrl hok
 
 /-- **the code as found (before repair F16), counterexample.**  Tping written, the Rping is read
     and dispatched, the next read fails, `_OpenImpl` as it was resumes: the transport reports
@@ -320,10 +432,16 @@ theorem C08_mux_open_burst_is_open_then_burst (s : MuxT.St) (rs : List (IOOut ×
     (MuxT.stepOut s (.openBurst rs)).2.eff.conns = (MuxT.stepOut s (.openT .ok)).2.eff.conns :=
   ⟨rfl, rfl, rfl, rfl⟩
 
-/-- **ThriftMux transport, specification level.** -/
-theorem C08_mux_model_satisfies_spec (ops : List MuxT.Op) (h : MuxT.comp.wf () ops = true) :
-    MuxT.comp.spec () (MuxT.comp.modelTrace () ops) = .ok :=
-  MuxT.model_satisfies_spec ops h
+/-- **ThriftMux transport with the callers blocked on its open result, specification level.**  For
+    every operation list of the component `muxt` satisfying its hypotheses — operations of the
+    transport, connects that take time, requests handed to the transport while the open is
+    pending, in any order — the history of the model satisfies the executable specification the
+    harness evaluates on the implementation's observations; in particular every request owed a
+    response when a connection failure is observed — in the tag map or blocked on the open
+    result — is handed an error in that operation. -/
+theorem C08_mux_model_satisfies_spec (ops : List MuxT.POp) (h : MuxT.pcomp.wf () ops = true) :
+    MuxT.pcomp.spec () (MuxT.pcomp.modelTrace () ops) = .ok :=
+  MuxT.model_satisfies_specP ops h
 
 /-- **C08, specification level, both components.**  For every operation list satisfying the
     hypotheses of its component, the history of the model satisfies the executable
@@ -331,8 +449,8 @@ theorem C08_mux_model_satisfies_spec (ops : List MuxT.Op) (h : MuxT.comp.wf () o
 theorem C08_model_satisfies_spec :
     (∀ ops, Serial.comp.wf () ops = true →
         Serial.comp.spec () (Serial.comp.modelTrace () ops) = .ok) ∧
-    (∀ ops, MuxT.comp.wf () ops = true → MuxT.comp.spec () (MuxT.comp.modelTrace () ops) = .ok) :=
-  ⟨Serial.model_satisfies_spec, MuxT.model_satisfies_spec⟩
+    (∀ ops, MuxT.pcomp.wf () ops = true → MuxT.pcomp.spec () (MuxT.pcomp.modelTrace () ops) = .ok) :=
+  ⟨Serial.model_satisfies_spec, MuxT.model_satisfies_specP⟩
 
 /-! ## non-vacuity: concrete instances of the hypotheses -/
 
@@ -396,6 +514,51 @@ example : (stepOut (runOps St.init [.openT .ok, .wr .ok, .rd .ok .junk, .rd .ok 
 -- the Rping of the opening handshake with the end of the stream right behind it: the open fails
 example : (runOps St.init [.openT .ok, .wr .ok, .burst [(.ok, .junk), (.ok, .rping), (.eof, .junk)]]).cstate
     = .closed := by decide
+-- every operation list of the transport alone is one of the combined component
+example : pcomp.wf () ([.openT .ok, .wr .ok, .rd .ok .junk, .rd .ok .rping, .req 1 2, .req 2 3, .wr .ok,
+    .req 3 4, .rd .ok .junk, .rd .ok (.reply 2), .pingDue, .wr .ok, .pingSilence, .req 4 0].map .tr) = true := by
+  decide
+-- requests handed to the transport while the connect is in progress and during the handshake; the peer hangs up
+example : pcomp.wf () [.openStart, .park 1 2, .connected .ok [], .park 2 3, .tr (.wr .ok), .tr (.rd .eof .junk),
+    .tr .look, .tr (.req 3 0)] = true := by decide
+example : (pcomp.modelTrace () [.openStart, .park 1 2, .connected .ok [], .park 2 3, .tr (.wr .ok),
+    .tr (.rd .eof .junk)]).map (fun p => (p.2.state, p.2.faults, p.2.dels, p.2.parked)) =
+    [(.idle, 0, [], []), (.idle, 0, [], [1]), (.idle, 0, [], [1]), (.idle, 0, [], [1, 2]),
+     (.idle, 0, [], [1, 2]), (.closed, 1, [(1, .other), (2, .other)], [])] := by decide
+example : connFailureP (runOpsP PSt.init [.openStart, .park 1 2, .connected .ok [], .park 2 3, .tr (.wr .ok)])
+    (.tr (.rd .eof .junk)) = true ∧
+    (runOpsP PSt.init [.openStart, .park 1 2, .connected .ok [], .park 2 3, .tr (.wr .ok)]).inflight = [1, 2] := by
+  decide
+-- the connect that was in progress is refused
+example : (pcomp.modelTrace () [.openStart, .park 1 2, .connected .refuse []]).map
+    (fun p => (p.2.state, p.2.openRes, p.2.faults, p.2.dels)) =
+    [(.idle, .pending, 0, []), (.idle, .pending, 0, []), (.closed, .failed, 1, [(1, .other)])] := by decide
+example : connFailureP (runOpsP PSt.init [.openStart, .park 1 2]) (.connected .refuse []) = true := by decide
+-- the open succeeds: the blocked callers go on in order; a reply read in the same burst as the Rping finds no tag
+example : (pcomp.modelTrace () [.tr (.openT .ok), .park 1 2, .park 2 3, .tr (.wr .ok),
+    .tr (.burst [(.ok, .junk), (.ok, .rping), (.ok, .junk), (.ok, .reply 2)]), .tr (.wr .ok), .tr (.wr .ok),
+    .tr (.rd .ok .junk), .tr (.rd .ok (.reply 3)), .tr (.rd .raise .junk)]).map
+    (fun p => (p.2.state, p.2.dels, p.2.inflight, p.2.parked)) =
+    [(.idle, [], [], []), (.idle, [], [], [1]), (.idle, [], [], [1, 2]), (.idle, [], [], [1, 2]),
+     (.opened, [], [1, 2], []), (.opened, [], [1, 2], []), (.opened, [], [1, 2], []),
+     (.opened, [], [1, 2], []), (.opened, [(2, .stream)], [1], []), (.closed, [(1, .cerr)], [], [])] := by
+  decide
+example : (pcomp.modelTrace () [.tr (.openT .ok), .park 1 2, .park 2 3, .tr (.wr .ok),
+    .tr (.burst [(.ok, .junk), (.ok, .rping), (.ok, .junk), (.ok, .reply 2)]), .tr (.wr .ok), .tr (.wr .ok)]).map
+    (fun p => p.2.sent) = [[], [], [], [.ping], [], [.req 2 1], [.req 3 2]] := by decide
+-- the handshake's Rping is dispatched, the write fails, and only then does `_OpenImpl` resume: the caller gets the error
+example : pcomp.wf () [.tr (.openT .ok), .park 1 2, .tr (.race [(.ok, .junk), (.ok, .rping)] .mid .wr), .tr .look]
+    = true := by decide
+example : (stepOutP (runOpsP PSt.init [.tr (.openT .ok), .park 1 2])
+    (.tr (.race [(.ok, .junk), (.ok, .rping)] .mid .wr))).2.eff = { faults := 1, dels := [(1, .other)] } := by decide
+-- `Close()` while the connect is in progress; the connect then concludes on a transport that is shut down
+example : pcomp.wf () [.openStart, .park 1 2, .tr .close, .connected .ok [], .tr (.req 2 0)] = true := by decide
+example : (pcomp.modelTrace () [.openStart, .park 1 2, .tr .close, .connected .ok []]).map
+    (fun p => (p.2.state, p.2.faults, p.2.dels, p.2.conns)) =
+    [(.idle, 0, [], 0), (.idle, 0, [], 0), (.closed, 0, [(1, .other)], 0), (.closed, 0, [], 1)] := by decide
+example : (runOpsP PSt.init [.tr (.openT .ok), .park 1 2]).parked = [(1, 2)] ∧
+    (stepOutP (runOpsP PSt.init [.tr (.openT .ok), .park 1 2]) (.tr .pingSilence)).1.waiting = false ∧
+    (stepOut (runOpsP PSt.init [.tr (.openT .ok), .park 1 2]).t .pingSilence).1.cstate ≠ .opened := by decide
 end
 
 end Scales.C08
